@@ -2,6 +2,8 @@
  * one thread integrates in several reb_simulation_integrate calls, the library's server thread
  * answers, a client thread fetches /simulation `nreq` times.
  *   c19_server <whfast|whfast-unsafe|ias15|leapfrog>[-late] <port> <nreq>
+ * mode "two": two simulations (WHFast and IAS15), each with its own server and client, integrate in two threads of one
+ * process — any race ThreadSanitizer reports on a GLOBAL variable is shared state between independent simulations.
  * "-late": the integration runs in its own thread and is entered PAUSED; the server is started from the main thread
  * while it idles in reb_check_exit, then the simulation is resumed by writing r->status (what the space key does,
  * server.c:353-357) — the start order of seeded change C19-d.
@@ -51,8 +53,53 @@ static void* integrate_thread(void* arg){
     return NULL;
 }
 
+static int g_port2;
+static void* client2(void* arg){
+    int save = g_port; (void)save;
+    char buf[1<<16];
+    for (int k=0; k<g_nreq && !__atomic_load_n(&g_stop, __ATOMIC_SEQ_CST); k++){
+        int fd = socket(AF_INET, SOCK_STREAM, 0);
+        struct sockaddr_in a; memset(&a,0,sizeof(a));
+        a.sin_family = AF_INET; a.sin_port = htons(g_port2); a.sin_addr.s_addr = htonl(INADDR_LOOPBACK);
+        if (connect(fd,(struct sockaddr*)&a,sizeof(a))<0){ close(fd); return NULL; }
+        const char* req = "GET /simulation HTTP/1.0\r\nHost: localhost\r\n\r\n";
+        if (write(fd, req, strlen(req))<0){ close(fd); return NULL; }
+        while (read(fd, buf, sizeof(buf))>0) {}
+        close(fd);
+        usleep(300 + (k*7919)%1500);
+    }
+    return NULL;
+}
+static struct reb_simulation* make(int integrator, int N){
+    struct reb_simulation* r = reb_simulation_create();
+    reb_simulation_add_fmt(r, "m", 1.0);
+    for (int i=1;i<N;i++) reb_simulation_add_fmt(r, "m a e f", 1e-7, 1.0+0.02*i, 0.01*(i%5), 0.37*i);
+    reb_simulation_move_to_com(r);
+    r->dt = 0.01; r->integrator = integrator;
+    return r;
+}
+static int two_simulations(int port, int nreq){
+    g_port = port; g_port2 = port+1; g_nreq = nreq;
+    struct reb_simulation* a = make(REB_INTEGRATOR_WHFAST, 60);
+    struct reb_simulation* b = make(REB_INTEGRATOR_IAS15, 30);
+    if (reb_simulation_start_server(a, g_port)!=0 || reb_simulation_start_server(b, g_port2)!=0) return 3;
+    for (int w=0; w<1500 && (a->server_data->ready==0 || b->server_data->ready==0); w++) usleep(10000);
+    struct job ja = { a, 12, 0.405 }, jb = { b, 12, 3.0 };
+    pthread_t ta, tb, ca, cb;
+    pthread_create(&ca, NULL, client, NULL); pthread_create(&cb, NULL, client2, NULL);
+    pthread_create(&ta, NULL, integrate_thread, &ja); pthread_create(&tb, NULL, integrate_thread, &jb);
+    pthread_join(ta, NULL); pthread_join(tb, NULL);
+    __atomic_store_n(&g_stop, 1, __ATOMIC_SEQ_CST);
+    pthread_join(ca, NULL); pthread_join(cb, NULL);
+    reb_simulation_stop_server(a); reb_simulation_stop_server(b);
+    printf("done steps=%llu bodies=%ld bytes=%ld\n", (unsigned long long)(a->steps_done+b->steps_done), g_bodies, g_bytes);
+    reb_simulation_free(a); reb_simulation_free(b);
+    return 0;
+}
+
 int main(int argc, char** argv){
     if (argc<4) return 2;
+    if (!strcmp(argv[1], "two")) return two_simulations(atoi(argv[2]), atoi(argv[3]));
     char modebuf[64]; strncpy(modebuf, argv[1], 63); modebuf[63] = 0;
     int late = 0;
     char* dash = strstr(modebuf, "-late");
